@@ -5,21 +5,27 @@
 EXTENDS Tags
 MCTagOrder == <<"t1", "t2">>
 MCTagOrder3 == <<"t1", "t2", "t3">>
-C(b, td, pg, c, i, f) == [backend |-> b, tagdel |-> td, page |-> pg, cache |-> c, init |-> i, fixed |-> f]
-RegConfs == {C("reg", td, pg, c, i, FALSE) : td \in BOOLEAN, pg \in {0, 1, 2}, c \in BOOLEAN, i \in {"empty", "shared"}}
+C(b, td, pg, c, i, f) == [backend |-> b, tagdel |-> td, page |-> pg, cache |-> c, init |-> i, fixed |-> f, warm |-> FALSE]
+Warm(S) == S \cup {[c EXCEPT !.warm = TRUE] : c \in {x \in S : x.cache}}
+RegConfs == Warm({C("reg", td, pg, c, i, FALSE) : td \in BOOLEAN, pg \in {0, 1, 2}, c \in BOOLEAN, i \in {"empty", "pair"}})
 RegNoCache == {c \in RegConfs : ~c.cache}
 RegCache == {c \in RegConfs : c.cache}
 \* smaller spaces for the 3-goroutine runs: paging matters with concurrency, the start content less
-RegNoCacheShared == {c \in RegNoCache : c.init = "shared"}
-RegCacheShared == {c \in RegCache : c.init = "shared" /\ c.page = 0}
-LayClean == {C("layout", TRUE, 0, FALSE, i, FALSE) : i \in {"nodir", "empty", "shared", "untagged"}}
-LayShared == {C("layout", TRUE, 0, FALSE, "shared", FALSE)}
+RegNoCacheShared == {c \in RegNoCache : c.init = "pair"}
+RegCacheShared == {c \in RegCache : c.init = "pair" /\ c.page = 0}
+LayClean == {C("layout", TRUE, 0, FALSE, i, FALSE) : i \in {"nodir", "empty", "pair", "untagged"}}
+LayShared == {C("layout", TRUE, 0, FALSE, "pair", FALSE)}
 \* layouts written by other tools: HEAD code (expected to violate: S5) and the repaired code
-LayForeign == {C("layout", TRUE, 0, FALSE, i, FALSE) : i \in {"dupadj", "dupsep", "fullname", "mixed"}}
+LayForeign == {C("layout", TRUE, 0, FALSE, i, FALSE) : i \in {"dupadj", "dupsep", "dupsame", "fullname", "mixed"}}
 LayDupAdj == {C("layout", TRUE, 0, FALSE, "dupadj", FALSE)}
 LayFullName == {C("layout", TRUE, 0, FALSE, i, FALSE) : i \in {"fullname", "mixed"}}
-LayForeignFixed == {C("layout", TRUE, 0, FALSE, i, TRUE) : i \in {"dupadj", "dupsep", "fullname", "mixed", "untagged", "shared", "nodir"}}
+LayForeignFixed == {C("layout", TRUE, 0, FALSE, i, TRUE) : i \in {"dupadj", "dupsep", "dupsame", "fullname", "mixed", "untagged", "pair", "nodir"}}
 SeqConfs == RegConfs \cup LayClean
+\* schedule generation: 3 tags in the registry so that paging has something to page
+RegConfs3 == Warm({C("reg", td, pg, c, i, FALSE) : td \in BOOLEAN, pg \in {0, 1, 2}, c \in BOOLEAN, i \in {"pair", "shared"}})
+LayConfs3 == {C("layout", TRUE, 0, FALSE, i, FALSE) : i \in {"pair", "shared", "untagged", "nodir"}}
+SchedConfs == RegConfs3 \cup LayConfs3
+SeqConfs3 == RegConfs3 \cup LayConfs3 \cup {C("reg", td, pg, c, "empty", FALSE) : td \in BOOLEAN, pg \in {0, 1, 2}, c \in BOOLEAN}
 AllKinds == {"push", "pushd", "tagdel", "mdel", "mdelr", "head", "get", "list"}
 MutOnly == {"push", "pushd", "tagdel", "mdel", "mdelr"}
 =============================================================================
